@@ -1394,7 +1394,15 @@ def _replace(ex, c, a, dt):
     if isinstance(p, int): p = chr(p)
     return as_str(a[0]).replace(p, as_str(a[2]))
 @native(('str', 'repeat'))
-def _repeat(ex, c, a, dt): return as_str(a[0]) * concrete_int(ex, a[1])
+def _repeat(ex, c, a, dt):
+    n_ = deref(a[1])
+    reg = getattr(ex.ctx, 'sym_repeat', None)
+    if reg is not None and is_sym(n_) and not z3.is_bv_value(z3.simplify(n_)) and len(as_str(a[0])) == 1:
+        # a run of one character whose length is symbolic: the character followed by a private-use mark naming the length
+        # (harnesses that enable this read the text back with a reader that knows the mark)
+        reg.append(n_)
+        return as_str(a[0]) + chr(0xE000 + len(reg) - 1)
+    return as_str(a[0]) * concrete_int(ex, a[1])
 @native(('str', 'parse'))
 def _parse(ex, c, a, dt):
     s = as_str(a[0])
